@@ -412,6 +412,7 @@ structure ParseCall where
   hour : Int
   now : Int
   buf : Bytes
+deriving DecidableEq
 
 def ParseCall.Accepted (P : Prims) (k : ParseCall) : Prop := Accepts P k.hs k.filter k.hour k.now k.buf
 
